@@ -24,7 +24,8 @@ ASSUME NoId \notin Ids
 
 Item(p, i) == [p |-> p, id |-> i]
 \* "fieldset_redefined": a field set with the same field NAMES as one of the store's but another definition
-RejectKinds == {"missing_required", "fieldset_mismatch", "fieldset_redefined", "id_inconsistent"}
+\* "missing_required_other": the missing required value belongs to another field (of the second field set where there is one)
+RejectKinds == {"missing_required", "missing_required_other", "fieldset_mismatch", "fieldset_redefined", "id_inconsistent"}
 
 VARIABLES
   exists,     \* does file F exist
